@@ -41,6 +41,9 @@ type Net struct {
 	// OnReadDone is called by the reading goroutine when a Read has taken n bytes
 	// off the connection (before the schedule point that follows).
 	OnReadDone func(c *Conn, n int)
+	// OnFault is called (on the goroutine performing the operation) when an
+	// injected per-operation failure fires.
+	OnFault func(c *Conn, kind string)
 	// OnConn is called when a connection pair has been established.
 	OnConn func(client, server *Conn)
 	// RefuseAll makes every dial fail (network outage)
@@ -321,18 +324,23 @@ type Conn struct {
 	rwake   chan struct{}
 	lastDel time.Time
 
-	NRead, NWrite  int
-	FailReadAt     int // 1-based Read call index that fails (0 = never)
-	FailWriteAt    int
-	StallWrites    bool // writes block until their deadline
-	SendCap        int  // >0: at most this many written-but-unread bytes (peer's receive window + local send buffer)
-	unread         int  // bytes written by this endpoint that the peer application has not read yet
-	wwake          chan struct{}
-	Blackhole      bool // written data is silently lost
-	ShortReads     bool
-	CloseCalls     int
-	BytesDelivered int
-	Delivered      int // chunks delivered to this endpoint
+	NRead, NWrite int
+	FailReadAt    int // 1-based Read call index that fails (0 = never)
+	FailWriteAt   int
+	// FailWriteOnlyAt: from this Write call on every write fails, reads keep
+	// working (a send that times out because the peer does not drain, a peer
+	// that shut down its receiving side): the failure of one direction only
+	FailWriteOnlyAt int
+	wbroken         error
+	StallWrites     bool // writes block until their deadline
+	SendCap         int  // >0: at most this many written-but-unread bytes (peer's receive window + local send buffer)
+	unread          int  // bytes written by this endpoint that the peer application has not read yet
+	wwake           chan struct{}
+	Blackhole       bool // written data is silently lost
+	ShortReads      bool
+	CloseCalls      int
+	BytesDelivered  int
+	Delivered       int // chunks delivered to this endpoint
 }
 
 func (c *Conn) Name() string     { return fmt.Sprintf("c%d%s", c.id, c.side) }
@@ -362,12 +370,19 @@ func (c *Conn) Read(p []byte) (int, error) {
 	}
 	c.mu.Lock()
 	c.NRead++
+	fired := false
 	if c.FailReadAt != 0 && c.NRead == c.FailReadAt && c.broken == nil {
 		c.broken = ErrInjected
 		c.net.S.Fault("read-fail")
 		c.net.S.Logf("fault read#%d fails on %s", c.NRead, c.Name())
+		fired = true
 	}
 	c.mu.Unlock()
+	if fired {
+		if f := c.net.OnFault; f != nil {
+			f(c, "read-fail")
+		}
+	}
 	for {
 		c.mu.Lock()
 		if c.closed {
@@ -465,6 +480,24 @@ func (c *Conn) Write(p []byte) (int, error) {
 		c.broken = ErrInjected
 		c.net.S.Fault("write-fail")
 		c.net.S.Logf("fault write#%d fails on %s", c.NWrite, c.Name())
+		if f := c.net.OnFault; f != nil {
+			c.mu.Unlock()
+			f(c, "write-fail")
+			c.mu.Lock()
+		}
+	}
+	if c.FailWriteOnlyAt != 0 && c.NWrite >= c.FailWriteOnlyAt && c.broken == nil && !c.closed {
+		first := c.wbroken == nil
+		c.wbroken = ErrInjected
+		c.mu.Unlock()
+		if first {
+			c.net.S.Fault("write-only-fail")
+			c.net.S.Logf("fault write#%d and later fail on %s (reads unaffected)", c.NWrite, c.Name())
+			if f := c.net.OnFault; f != nil {
+				f(c, "write-only-fail")
+			}
+		}
+		return 0, ErrInjected
 	}
 	if c.closed {
 		c.mu.Unlock()
@@ -666,6 +699,13 @@ func (c *Conn) Closed() bool {
 	c.mu.Lock()
 	defer c.mu.Unlock()
 	return c.closed
+}
+
+// WriteBroken reports an injected failure of the sending direction only.
+func (c *Conn) WriteBroken() bool {
+	c.mu.Lock()
+	defer c.mu.Unlock()
+	return c.wbroken != nil
 }
 
 // Broken reports an injected reset / failure.
